@@ -418,6 +418,17 @@ def check_clock_case(case):
     import time
     from bitcoin.core import CheckBlockHeader, CBlockHeader
     off = case['offset']
+    if 'cur' in case:
+        # an EXPLICIT clock value, including 0 and other falsy / tiny ones: the rule is nTime <= cur_time + 7200 exactly
+        cur = case['cur']
+        nt_ = int(cur) + off
+        exp = nt_ <= cur + 7200
+        h = CBlockHeader(1, bytes(32), bytes(32), nt_, 0x207fffff, 0)
+        r = libx.call('CheckBlockHeader-explicit-clock', CheckBlockHeader, h, fCheckPoW=False, cur_time=cur, allowed=(ValidationError,))
+        if (r[0] == 'ok') != exp:
+            raise Violation('header/explicit-clock-%s' % ('accepts' if r[0] == 'ok' else 'rejects'),
+                            'CheckBlockHeader(nTime = %d, cur_time=%r): %s' % (nt_, cur, r[0]))
+        return {'nt': True, 'evals': 1, 'cls': ['explicit-clock:%s' % ('ok' if exp else 'future')]}
     assert abs(off - 7200) >= 3000
     exp = off < 7200
     h = CBlockHeader(1, bytes(32), bytes(32), int(time.time()) + off, 0x207fffff, 0)
@@ -530,6 +541,10 @@ def t_big(ctx):
     if ctx.shard == 0:
         for off in (-10 ** 6, 0, 3600, 4200, 10800, 14400, 10 ** 6):
             ctx.run({'kind': 'clock', 'offset': off})
+        for cur in (0, 0.0, 1, 0.5, 1000000, 2 ** 31, 4 * 10 ** 9):
+            for off in (0, 7199, 7200, 7201, 10 ** 5):
+                if cur + off < 2 ** 32:
+                    ctx.run({'kind': 'clock', 'offset': off, 'cur': cur})
     if ctx.shard == 0:
         ctx.exhaustive.append('CheckTransaction at stripped sizes 999,999 / 1,000,000 / 1,000,001 x {no, small, 70 kB} witness x {immutable, mutable}')
 
@@ -545,7 +560,7 @@ def s_tx(draw):
     wit = None
     if nin and draw(st.integers(0, 3)) == 0:
         wit = [['aa'] for _ in vin]
-    return {'kind': 'tx', 'chain': draw(st.sampled_from(libx.CHAINS)), 'mutable': draw(st.booleans()),
+    return {'kind': 'tx', 'chain': draw(st.sampled_from(libx.CHAINS)), 'mutable': draw(st.sampled_from([False, True, 'mixed'])),
             'tx': {'version': 1, 'vin': vin, 'vout': vout, 'wit': wit, 'locktime': 0}}
 
 
